@@ -426,12 +426,21 @@ fn two_setters_case(arrive: u64) {
     let (a0, d0) = (any_rank(), any_rank());
     let (aa, da) = (any_rank(), any_rank());
     let (ab, db) = (any_rank(), any_rank());
-    let h1 = mk_handle(a0, d0, false);
-    let h2 = h1.clone();
-    // as after Logger::build(): the gate is consistent with the initial specification
-    vs::cell_set(14, 1000);
-    h1.reconfigure(spec_of(a0, d0).max_level());
-    *T2.lock().unwrap() = Some((h2.clone(), ab, db));
+    // two handles on the same logger, as LoggerHandle::clone() yields them (shared spec lock, shared
+    // writers, each with its own - here empty - stack of saved specs). Built with LoggerHandle::new
+    // instead of clone(): cloning the *empty* spec_stack goes through Vec::spare_capacity_mut on an
+    // unallocated Vec, and CBMC flagged that zero-length slice of a dangling-but-valid pointer as
+    // "pointer invalid" whenever the gate's start value is symbolic (not reproducible natively: a false
+    // alarm of the encoding, DESIGN.md 6); nothing of set_new_spec depends on the stack.
+    let primary = Arc::new(PrimaryWriter::multi(crate::Duplicate::None, crate::Duplicate::None, false, dummy_format, dummy_format, None, None));
+    let others: Arc<HashMap<String, Box<dyn LogWriter>>> = Arc::new(HashMap::new());
+    let spec = Arc::new(RwLock::new(spec_of(a0, d0)));
+    let h1 = LoggerHandle::new(Arc::clone(&spec), Arc::clone(&primary), Arc::clone(&others));
+    let h2 = LoggerHandle::new(Arc::clone(&spec), Arc::clone(&primary), Arc::clone(&others));
+    // as after Logger::build(): the gate is consistent with the initial specification (no additional
+    // writers here, so it is the spec's max level; rank r = LevelFilter as usize)
+    vs::gate_set(std::cmp::max(a0, d0) as usize);
+    *T2.lock().unwrap() = Some((h2, ab, db));
     vs::cell_set(13, 0);
     vs::cell_set(14, arrive);
     h1.writers_handle.set_new_spec(spec_of(aa, da)).ok();
@@ -450,7 +459,9 @@ fn two_setters_case(arrive: u64) {
     kani::cover!(std::cmp::max(aa, da) < std::cmp::max(ab, db), "first spec stricter than second");
     kani::cover!(std::cmp::max(aa, da) > std::cmp::max(ab, db), "second spec stricter than first");
     std::mem::forget(h1);
-    std::mem::forget(h2);
+    std::mem::forget(spec);
+    std::mem::forget(primary);
+    std::mem::forget(others);
 }
 macro_rules! two_setters_instance {
     ($name:ident, $arrive:expr) => {
